@@ -70,7 +70,7 @@ pub fn e2(id: &str) -> Option<E2Def> {
             mode: Mode::Crash,
             profile: e2_profile_base(),
             quick_programs: 96,
-            thorough_programs: 480,
+            thorough_programs: 240,
             quick_points: 48,
             rule: "for each generated program (single writes, batches, transactions of both flavours, clears, keyspace create/delete, rotate/flush/compact/major-compact steps, journal rotation+eviction via position scale, reopen inside the program) one count run under the LD_PRELOAD interposer, then a real SIGKILL before tracked call n (thorough: every n; quick: a stratified sample incl. every journal call) and torn variants (first/middle/last byte) of journal writes; recovery by the real code on the real directory; oracle = recovered state equals S_p for acked <= p <= started, second reopen identical, new writes supersede and survive a further reopen; non-trivial = kill point strictly inside an operation (or inside a flush/compaction/rotation/recovery step) with >=1 operation acknowledged before; distinct by (program hash, n, t)",
             assumptions: vec![
@@ -94,7 +94,7 @@ pub fn e2(id: &str) -> Option<E2Def> {
                 mode: Mode::Torn,
                 profile: p,
                 quick_programs: 64,
-                thorough_programs: 1600,
+                thorough_programs: 800,
                 quick_points: 0,
                 rule: "programs = generated prefix (batches, transactions, single writes, clears, rotations/flushes, optionally a reopen so that the journal is in append mode) + a final batch/transaction of 1-12 items over 1-3 keyspaces (values on both sides of the compression threshold and of the 8 KiB journal buffer, tombstones, journal compression on/off); the final batch's journal bytes are located from the interposer log; the journal is then cut at EVERY byte offset of that batch (sampled if > 1500 B in quick / > 20000 B in thorough), once zero padded and once truncated, and the real recovery code runs on each image: recovered state must be exactly S_(m-1) (all earlier batches, nothing of the torn one), then appends to the repaired journal must be recoverable; plus real SIGKILL torn writes at random split points of the final write() calls; non-trivial = cut strictly inside a batch of >= 2 items; distinct by (program hash, offset, padding mode)",
                 assumptions: vec![
@@ -116,7 +116,7 @@ pub fn e2(id: &str) -> Option<E2Def> {
                 mode: Mode::PowerLoss,
                 profile: p,
                 quick_programs: 320,
-                thorough_programs: 1600,
+                thorough_programs: 800,
                 quick_points: 40,
                 rule: "programs with persist(Buffer|SyncData|SyncAll) at generated positions, batches/transactions with explicit durability, journal rotations (position scale), reopen (clean drop); two thirds run under the power-loss adversary: SIGKILL before a tracked call after the first sync point, then every journal byte written after that file's last successful fsync/fdatasync is reverted (zeroed inside the pre-allocated region, truncated beyond), then real recovery: every operation acknowledged before the last acknowledged sync point (sync persist, sync-durability commit, journal rotation, clean drop) must be present and the journal-derived content must be a prefix; one third uses manual journal persist (database and keyspaces) with a plain process crash: everything before the last acknowledged persist(Buffer)/flush point must survive. Independently the interposer log of the clean run is checked: at every acknowledged sync point no journal byte is unsynced, rotation syncs the old journal before the new one is created, clean drop leaves nothing unsynced. non-trivial = crash after >=1 sync point with >=1 acknowledged later write and (power loss) >0 bytes actually reverted; distinct by (program hash, kill index)",
                 assumptions: vec![
@@ -143,7 +143,7 @@ pub fn e2(id: &str) -> Option<E2Def> {
                 mode: Mode::Evict,
                 profile: p,
                 quick_programs: 128,
-                thorough_programs: 1000,
+                thorough_programs: 500,
                 quick_points: 14,
                 rule: "programs over 2-3 keyspaces with different memtable sizes, journal position scale 64000 (journal rotation after ~1 KB, in fjall's unmodified Flush path), generated orders of rotate / worker-step / clear / keyspace deletion, ending with 'rotate + flush every keyspace'; SIGKILL immediately after and immediately before EVERY unlink of a *.jnl file plus sampled generic points; oracle = recovery yields the full acknowledged state (prefix model, p >= acknowledged); log invariants: unlinked journal ids strictly increasing, always the smallest id present, never the active journal; at the end journal_count() == 1 and exactly one *.jnl on disk; non-trivial = kill adjacent to a journal unlink in a program with >= 2 journal rotations; distinct by (program hash, kill index)",
                 assumptions: vec!["max_journaling_size stays at its default (the straggler path needs >= 64 MiB of journals and is not reached)"],
@@ -159,16 +159,18 @@ pub fn e2(id: &str) -> Option<E2Def> {
             p.w.tx = 0;
             p.w.auto = 0;
             p.w.ks_admin = 0;
-            p.w.reopen = 0;
+            p.w.reopen = 3;
             p.w.weak = 0;
+            // a fifth of the programs use manual journal persist (fail-stop clauses only)
+            p.no_manual_persist = false;
             E2Def {
                 id: "C13",
                 mode: Mode::Fault,
                 profile: p,
                 quick_programs: 96,
-                thorough_programs: 400,
+                thorough_programs: 200,
                 quick_points: 40,
-                rule: "programs of inserts, removes, batches (incl. records larger than the 8 KiB journal buffer), clears, persist calls, rotations/flush steps (journal rotation via position scale), automatic journal persist (under manual persist an acknowledged write is by contract not yet persisted), all three database flavours; for journal-file call index n (thorough: every n; quick: a seeded sample) x fault kind {EIO on write, ENOSPC on write, true short write then ENOSPC, EIO on fsync/fdatasync} x {one-shot, sticky}, plus plain short writes (half of the bytes accepted, no error; once or on every write: nothing may fail and everything acknowledged must be recovered) the program runs to completion under the interposer; oracle: (1) the foreground write operation during which the fault fired returns an error, (2) every write-kind operation attempted afterwards returns an error, (3) after a fault-free reopen the state equals the acknowledged state or that plus the whole failed operation; non-trivial = the fault fired inside an operation and >= 1 further write was attempted afterwards; distinct by (program hash, fault spec)",
+                rule: "programs of inserts, removes, batches (incl. records larger than the 8 KiB journal buffer), clears, persist calls, rotations/flush steps (journal rotation via position scale), reopens before the fault (recovered keyspaces), automatic journal persist and — for the fail-stop clauses (1) and (2) only, since an acknowledged write is then by contract not yet persisted — manual journal persist at database or keyspace level, all three database flavours; for journal-file call index n (thorough: every n; quick: a seeded sample) x fault kind {EIO on write, ENOSPC on write, true short write then ENOSPC, EIO on fsync/fdatasync} x {one-shot, sticky}, plus plain short writes (half of the bytes accepted, no error; once or on every write: nothing may fail and everything acknowledged must be recovered) the program runs to completion under the interposer; oracle: (1) the foreground write operation during which the fault fired returns an error, (2) every write-kind operation attempted afterwards returns an error, (3) after a fault-free reopen the state equals the acknowledged state or that plus the whole failed operation; non-trivial = the fault fired inside an operation and >= 1 further write was attempted afterwards; distinct by (program hash, fault spec)",
                 assumptions: vec![
                     "single foreground thread (several writer threads are not exercised by this check)",
                     "faults are injected on journal (*.jnl) files only; table-file errors are lsm-tree's domain",
